@@ -10,7 +10,7 @@ import (
 
 func init() {
 	register(&propCheck{id: "C14", needRoot: true, run: checkC14,
-		explanation: "Decided statically: (1) DOM — in SaveVersion every call that can reach a batch mutation is dominated by the `version does not exist yet` edge of the overwrite check, and the `exists` edge never reaches a batch mutation (it returns on both outcomes), so committing an existing version number writes nothing; (2) ORDER — LoadVersion replaces the working tree / lastSaved only after the target-range test, the existence test and the root lookup have all passed; (3) FLOW — the version number given to every writer in SaveVersion, stored as the tree version and returned on success is the single value WorkingVersion(), and WorkingVersion() is `version+1` or the configured initial version. Added in the build round: lastSaved follows every successful commit / load; first version advances only after a successful deleteVersion; VersionExists and re-commit decision tables (TABLE); ORDER-publish-after-commit — SaveVersion publishes the new number (cached latest version, tree.version, working / lastSaved trees) only after Commit() returned nil or on the idempotent re-save edge; ERR-version-range — storage errors in the range discovery and existence probes are surfaced, never read as 'absent' (closures handed to library search routines included). NOT decided: that the contiguous range is rediscovered correctly after reopening (first-version binary search relies on data invariants), nor the contents of versions."})
+		explanation: "Decided statically: (1) DOM — in SaveVersion every call that can reach a batch mutation is dominated by the `version does not exist yet` edge of the overwrite check, and the `exists` edge never reaches a batch mutation (it returns on both outcomes), so committing an existing version number writes nothing; (2) ORDER — LoadVersion replaces the working tree / lastSaved only after the target-range test, the existence test and the root lookup have all passed; (3) FLOW — the version number given to every writer in SaveVersion, stored as the tree version and returned on success is the single value WorkingVersion(), and WorkingVersion() is `version+1` or the configured initial version. Added in the build round: lastSaved follows every successful commit / load; first version advances only after a successful deleteVersion; VersionExists and re-commit decision tables (TABLE); ORDER-publish-after-commit — SaveVersion publishes the new number (cached latest version, tree.version, working / lastSaved trees) only after Commit() returned nil or on the idempotent re-save edge; ERR-version-range — storage errors in the range discovery and existence probes are surfaced, never read as 'absent' (closures handed to library search routines included). NOT decided: that the contiguous range is rediscovered correctly after reopening (first-version binary search relies on data invariants), nor the contents of versions. Rules added in the later seeding rounds (each listed with what it decides in this file's rule table) are described in DESIGN.md §3 \"Third and fourth seeding rounds\" and Appendix C3–C5."})
 }
 
 // batchMutationReach: functions that may perform Batch.Set/Delete.
